@@ -32,7 +32,7 @@ Lemma lp_alloc_succ : forall p bs a rest, lp_dec p bs = Ok (a, rest) ->
   (lp_alloc p bs <= lp_ka * (lenN bs - lenN rest))%N.
 Proof.
   intros p bs a rest H. unfold lp_ka.
-  destruct p as [| | w sg | max | max | | n | | | d |]; cbn [lp_dec lp_alloc] in *; try lia.
+  destruct p as [| | w sg | max | max | | n | | | d | |]; cbn [lp_dec lp_alloc] in *; try lia.
   - destruct (dec_lenpref (4 * max) bs) as [[s r]|e] eqn:E; [|discriminate]. inversion H; subst.
     destruct (claimed_ok _ _ _ _ E) as [C1 C2]. rewrite C1. lia.
   - destruct (dec_lenpref max bs) as [[s r]|e] eqn:E; [|discriminate]. inversion H; subst.
@@ -65,12 +65,13 @@ Proof.
   - destruct (dec_lenpref _ bs) as [[s r]|e] eqn:E; [|discriminate].
     destruct (claimed_ok _ _ _ _ E) as [C1 C2]. rewrite C1.
     destruct (valid_key (canon_key s)); [|discriminate]. inversion H; subst. lia.
+  - destruct (nbt_rest bs) as [r|] eqn:E; [|discriminate]. inversion H; subst. apply nbt_rest_len in E. unfold lenN. lia.
 Qed.
 
 Lemma lp_alloc_any : forall p bs, (lp_alloc p bs <= lp_ka * lenN bs + lp_cap p)%N.
 Proof.
   intros p bs. unfold lp_ka.
-  destruct p as [| | w sg | max | max | | n | | | d |]; cbn [lp_alloc lp_cap]; try lia.
+  destruct p as [| | w sg | max | max | | n | | | d | |]; cbn [lp_alloc lp_cap]; try lia.
   - pose proof (claimed_le (4 * max) bs). lia.
   - pose proof (claimed_le max bs). lia.
   - destruct bs as [|b r]; lia.
@@ -78,6 +79,7 @@ Proof.
     destruct (forge_max <? n) eqn:E; [lia|]. apply Z.ltb_ge in E. unfold forge_max in *. lia.
   - pose proof (claimed_le (4 * (if d then 36 else 32)) bs). destruct d; lia.
   - pose proof (claimed_le (4 * default_max) bs). unfold default_max in *. lia.
+  - destruct (nbt_rest bs) as [r|] eqn:E; [apply nbt_rest_len in E; unfold lenN; lia | lia].
 Qed.
 
 Lemma dec_varint_nofuel bs : dec_varint bs <> Err EFuel.
@@ -94,7 +96,7 @@ Qed.
 
 Lemma lp_prim_nofuel : forall p bs, lp_dec p bs <> Err EFuel.
 Proof.
-  intros p bs. destruct p as [| | w sg | max | max | | n | | | d |]; cbn [lp_dec].
+  intros p bs. destruct p as [| | w sg | max | max | | n | | | d | |]; cbn [lp_dec].
   - pose proof (dec_varint_nofuel bs). destruct (dec_varint bs) as [[z r]|e]; [discriminate | congruence].
   - destruct bs; discriminate.
   - pose proof (take_n_nofuel w bs). destruct (take_n w bs) as [[b r]|e]; [discriminate | congruence].
@@ -115,6 +117,7 @@ Proof.
       [|congruence]. destruct (parse_uuid_text s); discriminate.
   - match goal with |- context [dec_lenpref ?l bs] => pose proof (dec_lenpref_nofuel l bs); destruct (dec_lenpref l bs) as [[s r]|e] end;
       [|congruence]. destruct (valid_key (canon_key s)); discriminate.
+  - destruct (nbt_rest bs); discriminate.
 Qed.
 
 Theorem lp_alloc_ok : pfam_alloc_ok LP lp_ka.
